@@ -34,6 +34,10 @@ def workdir(tag='w'):
         _workdir = os.path.join(ROOT, '.work', '%s-%d' % (tag, os.getpid()))
         shutil.rmtree(_workdir, ignore_errors=True)
         os.makedirs(_workdir)
+        # TLC unpacks its standard modules into a fresh directory under java.io.tmpdir at every start and leaves it there:
+        # point it (tools/tlc.sh reads TLC_TMPDIR) into the scratch directory, which is removed on exit
+        os.makedirs(os.path.join(_workdir, 'jtmp'), exist_ok=True)
+        os.environ['TLC_TMPDIR'] = os.path.join(_workdir, 'jtmp')
     return _workdir
 
 
